@@ -173,6 +173,7 @@ int ABT_xstream_barrier_wait(ABT_xstream_barrier barrier)
             uint64_t cur_tag = ABTD_atomic_relaxed_load_uint64(&p_barrier->tag);
             ABTD_spinlock_release(&p_barrier->lock);
             while (cur_tag == ABTD_atomic_acquire_load_uint64(&p_barrier->tag))
+                ABTI_VERIF_SPIN_HINT(ABTI_VERIF_SITE_XSTREAM_BARRIER, p_barrier),
                 ABTD_atomic_pause();
         }
 #endif
